@@ -78,7 +78,7 @@ def screen_shape(b, cls=SCR, extra=None):
     if extra:
         f.update(extra)
     b.ghost('nextid', b.int('nextid'))
-    return b.obj('self', cls, closed=False, **f)
+    return b.obj('self', cls, sealed=False, **f)
 
 
 class ScreenContract(Contract):
@@ -534,7 +534,7 @@ class Init(Contract):
     props = ('C18', 'C19')
 
     def shape(self, b):
-        me = b.obj('self', SCR, closed=False)
+        me = b.obj('self', SCR, sealed=False)
         return dict(self=me, r=b.int('r'), c=b.int('c'))
 
     def requires(self, v):
